@@ -85,12 +85,34 @@ def poison(rng, doc):
     return kind
 
 
+FILL_FIRST1 = [('char', 'abc', False), ('char', 'a b', True), ('char', "a'b c", True), ('char', 'a\'b "c', True), ('numb', '1.50(3)', False),
+               ('char', 'x\ny', True), ('unk',), ('char', 'say "hi" it\'s', True)]
+NFILL1 = len(FILL_FIRST1) * 64 * 2
+
+
+def fill_probe_doc1(j):
+    """CIF 1.1 line-fill probes (see C02.fill_probe_doc): loop packets are the only place where values share a line"""
+    order = j % 2
+    j //= 2
+    first = FILL_FIRST1[j % len(FILL_FIRST1)]
+    n = 1985 + (j // len(FILL_FIRST1)) % 64
+    filler = ('char', 'f' * n, False) if n % 2 else ('char', 'f' * (n - 2) + ' g', True)
+    rows = [[first, filler, first], [filler, first, first]] if order else [[('char', 'h', False), first, filler], [first, first, filler]]
+    return [{'code': 'fill', 'entries': [('loop', ['_a', '_b', '_c'], rows)]}]
+
+
 def _run_case_body(ctx, L, i, scope):
     rng = ctx.rng('C13', i)
-    doc = B.writer_doc(rng, ascii_only=True, big=False)
+    nfill = ctx.params.get('fill_probes', 0)
     label = 'clean'
-    if i % 4 == 0:
-        label = poison(rng, doc)
+    if i < nfill:
+        doc = fill_probe_doc1(i)
+        label = 'fill'
+        ctx.count('fill_probes')
+    else:
+        doc = B.writer_doc(rng, ascii_only=True, big=False)
+        if i % 4 == 0:
+            label = poison(rng, doc)
     pv, pc = classify(doc)
     info = dict(index=i, kind=label, poison_value=pv, poison_char=pc)
     if i % 53 == 0:
@@ -153,8 +175,8 @@ def worker(ctx):
 
 
 def run(env):
-    n = 6000 if env.quick else 60000
-    res = env.run_pool(MODULE, dict(cifs=n), nshards=16, case_timeout=300, total_timeout=3000 if env.quick else 30000)
+    n = (6000 if env.quick else 60000) + NFILL1
+    res = env.run_pool(MODULE, dict(cifs=n, fill_probes=NFILL1), nshards=16, case_timeout=300, total_timeout=3000 if env.quick else 30000)
     inconclusive = list(res.inconclusive)
     if res.count('cifs') < n and not res.violations:
         inconclusive.append('only %d of %d CIFs ran' % (res.count('cifs'), n))
@@ -166,7 +188,7 @@ def run(env):
                  'inexpressible element) written with cif_version = 1; distinct by per-index PRNG; non-trivial = the '
                  'outcome class (round trip / DISALLOWED_VALUE / DISALLOWED_CHAR) agreed with the independent '
                  'expressibility rule and, on success, all output checks passed',
-            samples=res.samples, round_trips=res.count('round_trips_ok'), refused_value=res.count('refused_value'),
+            samples=res.samples, systematic_line_fill_probes=res.count('fill_probes'), round_trips=res.count('round_trips_ok'), refused_value=res.count('refused_value'),
             refused_char=res.count('refused_char'), poisoned_but_round_tripped=res.count('poisoned_but_round_tripped'),
             outcomes=sorted(res.sets.get('outcomes', ())), crashes=res.crashes),
         violations=res.violations, inconclusive=inconclusive,
